@@ -40,3 +40,5 @@ Definition dg_raises (n low : N) : bool := (low <? n).
 Definition dg_raise_low (n : N) : N := n.
 Definition dg_raise_high (n : N) : N := (n * 2).
 Definition dg_too_large (body_size cms : N) : bool := (cms <? body_size).
+(* the closing-connection gate of RequestHandler.data_received, conjunct by conjunct *)
+Definition dg_srv_closing_feeds (nonempty has_req at_eof has_tr has_parser has_pp upgraded : bool) : bool := (has_req) && (negb at_eof) && (has_tr) && (has_parser) && (negb has_pp) && (negb upgraded).
